@@ -28,6 +28,48 @@ fn run_bar(c: [usize; 6], n: usize) -> String {
     }
 }
 
+
+/// One frame through the real FancyState (task_started, task_output, print_progress) with the
+/// terminal replaced (width override + stdout sink).
+fn run_frame(cols: Option<usize>, c: [usize; 6], tasks: &[(String, u64, Option<Vec<u8>>)]) -> String {
+    let tasks = tasks.to_vec();
+    match std::panic::catch_unwind(move || {
+        use n2::verif as v;
+        let mut sc = StateCounts::default();
+        let states = [BuildState::Want, BuildState::Ready, BuildState::Queued, BuildState::Running, BuildState::Done, BuildState::Failed];
+        for (s, k) in states.iter().zip(c.iter()) { sc.add(*s, *k as isize); }
+        let builds: Vec<v::Build> = tasks.iter().map(|(msg, _, _)| {
+            let mut b = v::Build::new(
+                v::FileLoc { filename: std::rc::Rc::new(std::path::PathBuf::from("build.ninja")), line: 1 },
+                v::BuildIns { ids: vec![], explicit: 0, implicit: 0, order_only: 0 },
+                v::BuildOuts { ids: vec![], explicit: 0 },
+            );
+            b.cmdline = Some(msg.clone());
+            b
+        }).collect();
+        let arg: Vec<(&v::Build, u64, Vec<Vec<u8>>)> = builds.iter().zip(tasks.iter())
+            .map(|(b, (_, secs, line))| (b, *secs, match line { Some(l) => vec![b"earlier line".to_vec(), l.clone()], None => vec![] }))
+            .collect();
+        v::render_frame(&sc, &arg, cols)
+    }) {
+        Ok((out, _ages)) => format!("ok {}", hex(&out)),
+        Err(e) => format!("panic {}", panic_message(e)),
+    }
+}
+
+fn frame_case(cols: Option<usize>, c: [usize; 6], tasks: &[(String, u64, Option<Vec<u8>>)]) -> String {
+    let mut s = format!("frame {} {} {} {} {} {} {} {}", match cols { Some(k) => k.to_string(), None => "-".into() },
+        c[0], c[1], c[2], c[3], c[4], c[5], tasks.len());
+    for (msg, secs, line) in tasks {
+        s.push_str(&format!(" {} {} ", hex(msg.as_bytes()), secs));
+        match line {
+            Some(l) => { s.push_str(&hex(l)); s.push(' '); s.push_str(&hex(String::from_utf8_lossy(l).as_bytes())); }
+            None => s.push_str("~ ~"),
+        }
+    }
+    s
+}
+
 fn replay_line(ctx: &mut Ctx, line: &str) {
     let t: Vec<&str> = line.split_whitespace().collect();
     match t.as_slice() {
@@ -40,6 +82,19 @@ fn replay_line(ctx: &mut Ctx, line: &str) {
             let (Some(b), Ok(k)) = (unhex(h), k.parse::<usize>()) else { return };
             let Ok(m) = String::from_utf8(b) else { return };
             ctx.emit(line, || run_truncate(&m, k));
+        }
+        ["frame", cols, a, b, c, d, e, f, n, rest @ ..] => {
+            let v: Vec<usize> = [a, b, c, d, e, f, n].iter().filter_map(|x| x.parse().ok()).collect();
+            if v.len() != 7 || rest.len() != 4 * v[6] { return; }
+            let cols: Option<usize> = cols.parse().ok();
+            let mut tasks = Vec::new();
+            for ch in rest.chunks(4) {
+                let (Some(m), Ok(secs)) = (unhex(ch[0]), ch[1].parse::<u64>()) else { return };
+                let Ok(m) = String::from_utf8(m) else { return };
+                let line = if ch[2] == "~" { None } else { unhex(ch[2]) };
+                tasks.push((m, secs, line));
+            }
+            ctx.emit(line, || run_frame(cols, [v[0], v[1], v[2], v[3], v[4], v[5]], &tasks));
         }
         ["bar", a, b, c, d, e, f, n] => {
             let v: Vec<usize> = [a, b, c, d, e, f, n].iter().filter_map(|x| x.parse().ok()).collect();
@@ -123,5 +178,47 @@ pub fn run(ctx: &mut Ctx) {
         let n = ctx.rng.range(1, 80);
         ctx.count("bar_random");
         ctx.emit(&format!("bar {} {} {} {} {} {} {}", c[0], c[1], c[2], c[3], c[4], c[5], n), || run_bar(c, n));
+    }
+    // whole frames through the real FancyState: running tasks with messages, ages and last
+    // output lines (valid UTF-8 of mixed widths, invalid and raw bytes) x widths x counts
+    let max_age: u64 = [100_000u64, 1000, 100, 10, 3, 0].into_iter()
+        .find(|a| std::time::Instant::now().checked_sub(std::time::Duration::from_secs(*a)).is_some()).unwrap_or(0);
+    let n = if ctx.thorough() { 60_000 } else { 4_000 };
+    for _ in 0..n {
+        let cols = if ctx.rng.chance(1, 8) { None } else if ctx.rng.chance(1, 2) { Some(ctx.rng.range(10, 50)) } else { Some(ctx.rng.range(10, 300)) };
+        let mut c = [0usize; 6];
+        for x in c.iter_mut() { *x = if ctx.rng.chance(1, 3) { 0 } else { ctx.rng.below(60) }; }
+        let nt = match ctx.rng.below(8) { 0 => 0, 1..=5 => ctx.rng.range(1, 4), 6 => ctx.rng.range(5, 8), _ => ctx.rng.range(9, 12) };
+        let mut tasks = Vec::new();
+        for _ in 0..nt {
+            let mut msg = String::new();
+            let mlen = if ctx.rng.chance(1, 3) { 200 } else { 30 };
+            for _ in 0..ctx.rng.range(1, mlen) {
+                let w = if ctx.rng.chance(2, 3) { 0 } else { ctx.rng.range(1, 3) };
+                msg.push_str(syms[w]);
+            }
+            let secs = *ctx.rng.pick(&[0u64, 0, 2, 3, 10, 100, 1000, 100_000]);
+            let secs = secs.min(max_age);
+            let line = if ctx.rng.chance(1, 4) { None } else {
+                let len = if ctx.rng.chance(1, 2) { ctx.rng.range(0, 30) } else { ctx.rng.range(30, 320) };
+                let mut l: Vec<u8> = Vec::new();
+                let kind = ctx.rng.below(4);
+                while l.len() < len {
+                    match kind {
+                        0 => l.push(b'a' + ctx.rng.below(26) as u8),
+                        1 => l.extend_from_slice(syms[ctx.rng.below(4)].as_bytes()),
+                        2 => { if ctx.rng.chance(1, 6) { l.push(*ctx.rng.pick(&[0xffu8, 0x80, 0xc3, 0xe6, 0xf0, 0x9f])); } else { l.extend_from_slice(syms[ctx.rng.below(4)].as_bytes()); } }
+                        _ => l.push(*ctx.rng.pick(&[0xffu8, 0xfe, 0x80, 0xbf, 0xc0, 0xe2, 0x41, 0x20])),
+                    }
+                }
+                ctx.count(["frame_line_ascii", "frame_line_utf8", "frame_line_mixed", "frame_line_raw"][kind]);
+                Some(l)
+            };
+            tasks.push((msg, secs, line));
+        }
+        ctx.count("frame");
+        if nt > 8 { ctx.count("frame_more_than_8"); }
+        let case = frame_case(cols, c, &tasks);
+        ctx.emit(&case, || run_frame(cols, c, &tasks));
     }
 }
